@@ -179,7 +179,7 @@ H("c04_mp_view_inview", T, "C05", ["C04", "C05", "C03"], "quick",
   "N=2, injection only inside the view closure, up to 3 sends there, teardown checked")
 H("c06_bc_sibdrop_inclone", T, "C06", ["C06", "C12", "C04", "C05"], "quick",
   "broadcast shared stream, instrumented payload: consumer A is in the middle of clone() when its sibling handle is dropped (consumers 2->1) and the producer sends",
-  "N=2, prefix <=2 sends <=1 recv, injection only inside Clone, up to 3 ops at that site, teardown checked")
+  "N=2, prefix <=2 sends <=1 recv, injection only inside Clone, up to 3 ops at that site")
 H("c06_bc_sibdrop_all", T, "C12", ["C06", "C12", "C01", "C03"], "quick",
   "broadcast shared stream: consumer A's try_recv preempted everywhere by the drop of its sibling handle and a send",
   "N=2, 1 op per actor, depth 1, budget 2")
@@ -341,7 +341,7 @@ H("c18_bc_shared_inclone_mw", T, "C18", ["C18", "C04", "C05", "C03"], "quick",
   "broadcast shared stream, two live senders (multi-writer CAS path), instrumented payload: consumer A frozen in the middle of clone(); its sibling's try_recv and the producer's try_send (which reaches the pinned slot) must each finish in a bounded number of their own steps",
   "N=2, injection only inside Clone, up to 3 ops at that site; retry loops bound 3 with unwinding assertions")
 for n in ("c04_bc_shared_inclone", "c04_bc_streams_inclone", "c04_bc_view_inview", "c04_mp_view_inview", "c04_bc_shared_all", "c05_mp_shared_all",
-          "c06_bc_sibdrop_inclone", "c18_bc_shared_inclone_mw", "c17_teardown_mp", "c17_teardown_bc_stream", "c17_teardown_bc_clone"):
+          "c18_bc_shared_inclone_mw", "c17_teardown_mp", "c17_teardown_bc_stream", "c17_teardown_bc_clone"):
     HARNESSES[n]["teardown"] = True
 H("c16_wq_drop_seq", M, "C16", ["C16", "C17"], "thorough",
   "whole queue, REAL memory manager, sequential: 19 pre-loaded retirements, drop of a stream's last handle, stream churn, announces, reclamation cycle", "sequential",
